@@ -67,13 +67,21 @@ def run(ctx):
     rng = ctx.rng
     n_cases = 150 if ctx.tier == 'quick' else 1500
     ref_cases = []
-    for i in range(n_cases):
-        n = gen.log_int(rng, 2, 400 if ctx.tier == 'quick' else 3000)
+    # source hints: T/dt (directly, or through w*dt = 2 pi dt/T), xi and dt at / around every new float constant of the anchored files
+    hv = [('ratio', x) for x in gen.hint_values(ctx, 0.2, 2e4, cap=24, maps=(lambda c: c, lambda c: 6.2831853 / c, lambda c: 1 / c))] + \
+         [('xi', x) for x in gen.hint_values(ctx, 0.0, 0.999, cap=6)] + [('dt', x) for x in gen.hint_values(ctx, 1e-3, 1.0, cap=6, maps=(lambda c: c, lambda c: 1 / c))]
+    for i in range(n_cases + len(hv)):
+        n = gen.log_int(rng, 2, 400 if ctx.tier == 'quick' else 3000) if i < n_cases else rng.randint(40, 300)
         dt = 10 ** rng.uniform(-3, 0) if rng.random() < 0.5 else rng.choice([0.01, 0.005, 0.02, 0.1, 0.001])
+        if i >= n_cases and hv[i - n_cases][0] == 'dt':
+            dt = hv[i - n_cases][1]
         kind, a = record(rng, n, dt)
         npd = rng.randint(1, 6)
         ratios = [math.exp(rng.uniform(math.log(0.2), math.log(2e4))) if rng.random() < 0.7 else rng.choice([0.2, 1, 5.9, 6, 20, 2e4])
                   for _ in range(npd)]
+        if i >= n_cases and hv[i - n_cases][0] == 'ratio':
+            ratios[0] = hv[i - n_cases][1]
+            ctx.hist('source-hint/T over dt')
         periods = [r * dt for r in ratios]
         if kind == 'resonant':
             T0 = periods[0]
@@ -82,6 +90,8 @@ def run(ctx):
         if lead0:
             periods = [0.0] + periods
         xi = rng.choice([0.0, 1e-3, 0.05, 0.3, 0.7, 0.99]) if rng.random() < 0.7 else rng.uniform(0, 0.999)
+        if i >= n_cases and hv[i - n_cases][0] == 'xi':
+            xi = hv[i - n_cases][1]
         cont = rng.choice(['list', 'tuple', 'array'])
         pc = {'list': list(periods), 'tuple': tuple(periods), 'array': np.array(periods)}[cont]
         ctx.hist('record=' + kind)
@@ -143,8 +153,8 @@ def run(ctx):
         ctx.oracle('C01.d third series == -(2 xi w v + w^2 u) sample by sample', bool(np.all(np.abs(ac[s:] - want) <= 1e-12 * scale)), inputs)
         ctx.oracle('zero initial conditions', bool(np.all(u[:, 0] == 0) and np.all(v[:, 0] == 0)), inputs)
         # independent reference (property-level oracle), a few short cases in quick, more in thorough
-        if n <= 300 and len(ref_cases) < (12 if ctx.tier == 'quick' else 300):
-            j = rng.randrange(s, len(periods))
+        if n <= 300 and (len(ref_cases) < (12 if ctx.tier == 'quick' else 300) or i >= n_cases):
+            j = rng.randrange(s, len(periods)) if i < n_cases else s
             ref_cases.append({'acc': a, 'dt': dt, 'T': periods[j], 'xi': xi, 'u': u[j], 'v': v[j], 'inputs': inputs, 'j': j})
     ctx.flush()
     object_histories(ctx)
@@ -404,6 +414,8 @@ def x2_large(ctx):
     rng = ctx.rng
     quick = ctx.tier == 'quick'
     jobs = [(16000, 2, 2), (5500, 200, 3), (60000, 1, 1)] if quick else [(20000, 2, 3), (5500, 200, 3), (60000, 1, 3), (5000, 300, 3), (8192, 140, 3), (33000, 40, 3), (5001, 215, 2)]
+    # source hints: record lengths around every new integer constant; period counts that put the number of period x sample cells just above it
+    jobs = jobs + [(m, 2, 2) for m in gen.hint_sizes(ctx, lo=301, hi=400000, cap=6)] + [(5500, c // 5500 + 1, 2) for c in gen.hint_sizes(ctx, lo=2 ** 17, hi=6000000, cap=2)]
     for n, P, n_entry in jobs:
         dt = rng.choice([0.01, 0.005, 0.02])
         a = gen.noise_record(rng, n) * np.exp(-((np.arange(n) - n / 3) / (n / 5)) ** 2)
